@@ -22,7 +22,9 @@ def name_classes(lm):
     }
 
 
-def build(ctx, tier="quick", constraints=True, set_null=True, normalize_names=False, all_name_styles=False):
+def build(ctx, tier="quick", constraints=True, set_null=True, normalize_names=False, all_name_styles=False, style=None):
+    """style: None | 'plain' | 'dq' | 'bt' | 'br' - every identifier position of the statement written in that one style
+    (all_name_styles explores the full product of styles over the positions instead)"""
     lm = ctx.lexer
     s = Spec("table" if constraints else "core-column", lm, accumulators={"expr", "defcolumn", "table_name"})
     P, N, NM = punct(lm), numbers(lm), name_classes(lm)
@@ -30,9 +32,15 @@ def build(ctx, tier="quick", constraints=True, set_null=True, normalize_names=Fa
 
     def styled(cls):
         """the class plus, when all_name_styles, its double-quoted / back-ticked / bracketed variants"""
-        if not all_name_styles or cls.kind != "PLAIN":
+        if cls.kind != "PLAIN" or not (all_name_styles or style):
             return [cls]
         ex = list(cls.exemplars)
+        if style and not all_name_styles:
+            i = {"plain": 0, "dq": 1, "bt": 2, "br": 3}[style]
+            return [[cls,
+                     lm.custom(f'"{cls.name}"', [f'"{e}"' for e in ex[:3]] + [f'"{ex[0]} x"'], "DQ"),
+                     lm.custom(f"`{cls.name}`", [f"`{e}`" for e in ex[:4]], "BT"),
+                     lm.custom(f"[{cls.name}]", [f"[{e}]" for e in ex[:4]], "BR")][i]]
         return [cls,
                 lm.custom(f'"{cls.name}"', [f'"{e}"' for e in ex[:3]] + [f'"{ex[0]} x"'], "DQ"),
                 lm.custom(f"`{cls.name}`", [f"`{e}`" for e in ex[:4]], "BT"),
@@ -81,6 +89,8 @@ def build(ctx, tier="quick", constraints=True, set_null=True, normalize_names=Fa
     colstart = lp
     O = s.new()            # option loop
     names = [NM["a"], NM["b"]] + ([NM["dq"], NM["bt"], NM["br"]] if (tier == "thorough" or all_name_styles) else [NM["dq"]])
+    if style and not all_name_styles:
+        names = {"plain": [NM["a"], NM["b"]], "dq": [NM["dq"], NM["a"]], "bt": [NM["bt"], NM["a"]], "br": [NM["br"], NM["a"]]}[style]
     if normalize_names:
         names.append(NM["short"])
     for nm in names:
